@@ -147,6 +147,8 @@ func c17Op(out *vh.Out, fn string, args ...string) {
 		obs = res(CleanDomain(args[0]))
 	case "dnsforlookup":
 		obs = res(dns.ForLookup(args[0]))
+	case "valid":
+		obs = b01(Valid(args[0]))
 	case "equal":
 		obs = b01(Equal(args[0], args[1]))
 	case "dnsequal":
@@ -178,38 +180,190 @@ func c17Random(r *vh.Rng, maxLen int) string {
 	return b.String()
 }
 
-var c17Labels = []string{"example", "org", "com", "münchen", "пример", "испытание", "bücher", "例え", "test-1", "mx", "straße", "ελληνικά", "a"}
+var c17Labels = []string{"example", "org", "com", "münchen", "пример", "испытание", "bücher", "例え", "test-1", "mx", "straße", "ελληνικά", "a",
+	// ASCII 'i' (Turkish/Azeri/Lithuanian tailorings), Greek sigma in word-final / pre-hyphen / pre-digit position
+	// (context-sensitive lower-casing), final sigma, dotless i, letters Lithuanian lower-casing treats specially,
+	// right-to-left labels, a ZWNJ in a valid (Persian) context
+	"mail", "invalid", "info", "ασ", "σ", "κόσμοσ", "οσ-1", "σ1", "ασ-βσ", "λόγος", "ısı", "ìí", "įj́", "שלום", "مثال", "نامه\u200cای"}
+
+// labels maddy accepts (address.Valid) that are no IDNA2008/STD3 host names: underscores, "--" in
+// positions 3-4 without being an A-label, leading/trailing hyphens, digits only, a joiner outside its context
+var c17OddLabels = []string{"build_host", "_dmarc", "_", "a_b", "ab--c", "r3--x", "-lead", "trail-", "-", "a-", "-a-", "123", "0", "007", "ns1", "a\u200db",
+	"xn", "xn-", "x--", "3com", "a" + strings.Repeat("b", 62) + "c"}
+
+// whole domains that are address literals
+var c17Literals = []string{"[192.0.2.1]", "[127.0.0.1]", "[IPv6:2001:db8::1]", "[IPv6:::1]"}
+
 var c17Locals = []string{"user", "bob", "postmaster", "rené", "ünïcode", "first.last", "a+tag", "дима", "q", "x_y", "o'neil", "用户",
 	// characters for which case mapping and normalisation interact: U+0130 (lower-cases to plain i, its
 	// decomposition I + U+0307 does not), U+01F0 (no precomposed upper case), Greek with tonos, Å (U+212B -> U+00C5)
-	"İstanbul", "x\u0130", "\u01f0an", "άλφα", "\u212bngström", "ǆemal", "ﬁsh"}
+	"İstanbul", "xİ", "ǰan", "άλφα", "Ångström", "ǆemal", "ﬁsh",
+	// sigma at the end of the local part, before '-', '.', '_', '+', a digit; Turkish/Lithuanian/Dutch letters
+	"ασ", "σ", "κώστασ", "ασ-1", "ασ1", "νίκοσ.π", "οσ_x", "θωμάσ+tag", "aσ", "ΑΣ", "οδυσσέας", "ılık", "iı", "ìo", "íris", "ĩ", "įj́onas", "j́", "ĳs", "ǉubav", "ŉ"}
+
+// letters whose case mapping is context- or language-sensitive somewhere in x/text/cases
+var c17CaseLetters = []string{"σ", "σ", "σ", "ς", "ı", "i", "ì", "í", "į", "j́", "ß", "k", "s"}
 
 type c17Addr struct{ mbox, domain string }
 
+// decorate puts one case-sensitive letter at a word boundary of s: at the end, at the start, before a
+// '-', '.', '_', '+' or before a digit
+func c17Decorate(r *vh.Rng, s string) string {
+	l := c17CaseLetters[r.Intn(len(c17CaseLetters))]
+	var pos []int
+	for i, ch := range s {
+		if ch == '-' || ch == '.' || ch == '_' || ch == '+' || (ch >= '0' && ch <= '9') {
+			pos = append(pos, i)
+		}
+	}
+	pos = append(pos, len(s), len(s))
+	if r.Chance(15) {
+		pos = []int{0}
+	}
+	p := pos[r.Intn(len(pos))]
+	return norm.NFC.String(s[:p] + l + s[p:])
+}
+
 func c17Valid(r *vh.Rng) c17Addr {
+	mbox := c17Locals[r.Intn(len(c17Locals))]
+	if r.Chance(20) {
+		mbox = c17Decorate(r, mbox)
+	}
+	if r.Chance(6) {
+		return c17Addr{mbox, c17Literals[r.Intn(len(c17Literals))]}
+	}
 	nl := 1 + r.Intn(3)
 	var ls []string
 	for i := 0; i < nl; i++ {
-		ls = append(ls, c17Labels[r.Intn(len(c17Labels))])
+		var l string
+		if r.Chance(22) {
+			l = c17OddLabels[r.Intn(len(c17OddLabels))]
+			if len(l) > 40 && !r.Chance(25) {
+				l = "a-" // the 64-byte label (the longest ValidDomain accepts) makes very long op lines: keep it rare
+			}
+		} else {
+			l = c17Labels[r.Intn(len(c17Labels))]
+			if r.Chance(15) {
+				l = c17Decorate(r, l)
+			}
+		}
+		ls = append(ls, l)
 	}
-	return c17Addr{c17Locals[r.Intn(len(c17Locals))], strings.Join(ls, ".")}
+	return c17Addr{mbox, strings.Join(ls, ".")}
 }
 
-// a letter-case variant: runes whose simple case mapping round-trips are flipped at random
+// ---- the harness' own notion of "spelling variant" (independent of the code under test) ----
+
+// c17Fold: NFC, then the simple (one code point to one code point, context-free) lower-case mapping of
+// the Unicode character database. Two local parts are letter-case / normalisation variants of one another
+// exactly when their folds agree.
+func c17Fold(s string) string {
+	var b strings.Builder
+	for _, ch := range norm.NFC.String(s) {
+		b.WriteRune(unicode.ToLower(ch))
+	}
+	return b.String()
+}
+
+func c17HasACE(d string) bool {
+	for _, l := range strings.Split(d, ".") {
+		if len(l) >= 4 && strings.EqualFold(l[:4], "xn--") {
+			return true
+		}
+	}
+	return false
+}
+
+func c17UpperACE(d string) bool {
+	for _, l := range strings.Split(d, ".") {
+		if len(l) >= 4 && strings.EqualFold(l[:4], "xn--") && l[:4] != "xn--" {
+			return true
+		}
+	}
+	return false
+}
+
+// random letter-case respelling: every rune is replaced by its simple lower-, upper- or title-case form
 func caseVariant(r *vh.Rng, s string) string {
 	var b strings.Builder
 	for _, ch := range s {
-		up := unicode.ToUpper(ch)
-		if up != ch && unicode.ToLower(up) == unicode.ToLower(ch) && unicode.ToLower(ch) == ch && r.Bool() {
-			// only flip when upper-casing and lower-casing again is the identity on the NFC form too
-			if norm.NFC.String(string(up)) == string(up) {
-				b.WriteRune(up)
-				continue
-			}
+		switch r.Intn(4) {
+		case 0:
+			b.WriteRune(unicode.ToUpper(ch))
+		case 1:
+			b.WriteRune(unicode.ToLower(ch))
+		case 2:
+			b.WriteRune(unicode.ToTitle(ch))
+		default:
+			b.WriteRune(ch)
 		}
-		b.WriteRune(ch)
 	}
 	return b.String()
+}
+
+// upper-case the runes of the last word only / of every word's last letter (word-final positions)
+func finalUpper(s string) string {
+	rs := []rune(s)
+	for i, ch := range rs {
+		last := i == len(rs)-1 || !unicode.IsLetter(rs[i+1]) && !unicode.IsMark(rs[i+1])
+		if last {
+			rs[i] = unicode.ToUpper(ch)
+		}
+	}
+	return string(rs)
+}
+
+// one respelling of a U-form string (local part or domain in U-labels); the result is only used when the
+// harness' own fold says it is a variant of s
+func c17Respell(out *vh.Out, r *vh.Rng, s string) string {
+	var c string
+	k := r.Intn(9)
+	switch k {
+	case 0:
+		c = norm.NFD.String(s)
+	case 1:
+		c = caseVariant(r, s)
+	case 2, 3:
+		c = strings.ToUpper(s)
+	case 4:
+		c = strings.ToTitle(s)
+	case 5:
+		c = finalUpper(s)
+	case 6:
+		c = norm.NFD.String(strings.ToUpper(s))
+	case 7:
+		c = strings.ToUpper(norm.NFD.String(s))
+	default:
+		c = caseVariant(r, norm.NFD.String(s))
+	}
+	if c17Fold(c) != c17Fold(s) {
+		out.Stat(fmt.Sprintf("respell.%d.not-a-variant", k))
+		return s
+	}
+	if c != s {
+		out.Stat(fmt.Sprintf("respell.%d", k))
+	}
+	return c
+}
+
+func asciiUpper(s string) string {
+	b := []byte(s)
+	for i, c := range b {
+		if c >= 'a' && c <= 'z' {
+			b[i] = c - 32
+		}
+	}
+	return string(b)
+}
+
+func asciiRandCase(r *vh.Rng, s string) string {
+	b := []byte(s)
+	for i, c := range b {
+		if c >= 'a' && c <= 'z' && r.Bool() {
+			b[i] = c - 32
+		}
+	}
+	return string(b)
 }
 
 // foldVariant replaces runes by other members of their simple case-folding orbit
@@ -230,120 +384,239 @@ func foldVariant(r *vh.Rng, s string) string {
 	return b.String()
 }
 
-func asciiUpper(s string) string {
-	b := []byte(s)
-	for i, c := range b {
-		if c >= 'a' && c <= 'z' {
-			b[i] = c - 32
-		}
+// A-label spelling of a domain given in U-labels; ok=false when the labels would not survive the trip
+// (a label that already looks like an A-label, or one with upper-case letters: Punycode keeps their case)
+func c17ALabels(d string) (string, bool) {
+	if c17HasACE(d) || d != c17Fold(d) {
+		return "", false
 	}
-	return string(b)
+	ad, err := idna.ToASCII(d)
+	if err != nil {
+		return "", false
+	}
+	return ad, true
 }
 
-// spelling variants of one valid address (canonical form: NFC, lower case, U-labels)
-func c17Variants(r *vh.Rng, a c17Addr) []string {
+// spelling variants of one valid address: vs[0] is the address itself, the others are respellings of the
+// local part (letter case, NFD) combined with respellings of the domain (letter case, NFD, A-labels in any
+// letter case, trailing dot, labels spelled independently)
+func c17Variants(out *vh.Out, r *vh.Rng, a c17Addr) []string {
 	vs := []string{a.mbox + "@" + a.domain}
-	m2, d2 := a.mbox, a.domain
-	switch r.Intn(3) {
-	case 0:
-		m2 = norm.NFD.String(m2)
-	case 1:
-		m2 = caseVariant(r, m2)
-	}
-	kind := r.Intn(5)
-	switch kind {
-	case 0:
-		d2 = norm.NFD.String(d2)
-	case 1:
-		d2 = caseVariant(r, d2)
-	case 2:
-		if ad, err := idna.ToASCII(d2); err == nil {
-			d2 = ad
+	nv := 1 + r.Intn(3)
+	for j := 0; j < nv; j++ {
+		m2, d2 := a.mbox, a.domain
+		if r.Chance(70) {
+			m2 = c17Respell(out, r, m2)
 		}
-	case 3:
-		if ad, err := idna.ToASCII(d2); err == nil {
-			d2 = asciiUpper(ad)
-		}
-	case 4:
-		d2 = d2 + "."
-	}
-	if r.Chance(30) {
-		// one name, labels spelled independently: some as A-labels (any letter case), some as U-labels
-		ls := strings.Split(a.domain, ".")
-		for i, l := range ls {
-			if r.Bool() {
-				if al, err := idna.ToASCII(l); err == nil {
-					if r.Bool() {
-						al = asciiUpper(al)
+		literal := strings.HasPrefix(d2, "[")
+		switch kind := r.Intn(8); kind {
+		case 0, 1, 2:
+			d2 = c17Respell(out, r, d2)
+		case 3:
+			if ad, ok := c17ALabels(d2); ok {
+				d2 = ad
+			}
+		case 4:
+			if ad, ok := c17ALabels(d2); ok {
+				d2 = asciiUpper(ad)
+			}
+		case 5:
+			if ad, ok := c17ALabels(d2); ok {
+				d2 = asciiRandCase(r, ad)
+			}
+		case 6:
+			// one name, labels spelled independently: some as A-labels (any letter case), some respelled
+			ls := strings.Split(a.domain, ".")
+			for i, l := range ls {
+				if r.Bool() {
+					if al, ok := c17ALabels(l); ok {
+						switch r.Intn(3) {
+						case 0:
+							al = asciiUpper(al)
+						case 1:
+							al = asciiRandCase(r, al)
+						}
+						ls[i] = al
 					}
-					ls[i] = al
+				} else if r.Chance(60) {
+					ls[i] = c17Respell(out, r, l)
 				}
-			} else if r.Chance(30) {
-				ls[i] = norm.NFD.String(l)
+			}
+			d2 = strings.Join(ls, ".")
+		}
+		if r.Chance(20) && !literal {
+			d2 = d2 + "."
+		}
+		vs = append(vs, m2+"@"+d2)
+	}
+	return vs
+}
+
+func c17SplitAt(a string) (string, string) {
+	i := strings.LastIndex(a, "@")
+	if i < 0 {
+		return a, ""
+	}
+	return a[:i], a[i+1:]
+}
+
+// c17CheckValid: every address maddy accepts (address.Valid) gets a lookup key and a cleaned form.
+// Applied to generated addresses, their variants and to every other string the run produces. (That the
+// key is a fixed point is checked for the generated addresses in c17Monitor: for arbitrary accepted
+// strings such as "u@xn--" -- an empty A-label, key "u" -- the key need not be an address.)
+func c17CheckValid(out *vh.Out, x string) {
+	if !utf8.ValidString(x) || !Valid(x) {
+		out.Stat("validkey.not-valid")
+		return
+	}
+	out.Stat("validkey.checked")
+	op := "C17 validkey " + vh.HexRunes(x)
+	k, err := ForLookup(x)
+	if err != nil {
+		out.Violation("C17/valid-address-no-key", op, fmt.Sprintf("Valid(%q) but ForLookup: %v", x, err))
+		return
+	}
+	if _, err := CleanDomain(x); err != nil {
+		out.Violation("C17/valid-address-cleandomain-fails", op, fmt.Sprintf("Valid(%q) but CleanDomain: %v", x, err))
+	}
+	if _, d := c17SplitAt(x); d != "" {
+		if _, err := dns.ForLookup(d); err != nil {
+			out.Violation("C17/valid-address-no-dns-key", op, fmt.Sprintf("Valid(%q) but dns.ForLookup(%q): %v", x, d, err))
+		}
+		if _, err := dns.ToUnicode(d); err != nil {
+			out.Violation("C17/valid-address-no-dns-key", op, fmt.Sprintf("Valid(%q) but dns.ToUnicode(%q): %v", x, d, err))
+		}
+	}
+	_ = k
+}
+
+func c17TrimDot(s string) string { return strings.TrimSuffix(s, ".") }
+
+// c17CheckPair: canon and v are spellings of one address (by construction of the generator)
+func c17CheckPair(out *vh.Out, canon, v string) {
+	vop := "C17 variants " + vh.HexRunes(canon) + " " + vh.HexRunes(v)
+	k1, err1 := ForLookup(canon)
+	kv, errv := ForLookup(v)
+	// the signature names the upper-case ACE prefix only when it is the cause: the same spelling with
+	// the prefix in lower case gets the right key
+	ace := ""
+	if c17UpperACE(v) {
+		mv, dv := c17SplitAt(v)
+		if kl, _ := ForLookup(mv + "@" + aceCandidate(dv)); kl == k1 {
+			ace = "uppercase-ace-prefix-"
+		}
+	}
+	if kv != k1 || (err1 == nil) != (errv == nil) {
+		sig := "C17/variant-different-key"
+		if ace != "" {
+			sig = "C17/uppercase-ace-prefix-different-key"
+		}
+		out.Violation(sig, vop, fmt.Sprintf("ForLookup(%q)=%q,%v but ForLookup(%q)=%q,%v", canon, k1, err1, v, kv, errv))
+	}
+	if !Equal(canon, v) || !Equal(v, canon) {
+		sig := "C17/variant-not-equal"
+		if ace != "" {
+			sig = "C17/uppercase-ace-prefix-not-equal"
+		}
+		out.Violation(sig, vop, fmt.Sprintf("Equal(%q,%q)=false", canon, v))
+	}
+	// the domains alone
+	mc, dc := c17SplitAt(canon)
+	mv, dv := c17SplitAt(v)
+	if dc != "" && dv != "" {
+		kc, e1 := dns.ForLookup(dc)
+		kd, e2 := dns.ForLookup(dv)
+		if kc != kd || (e1 == nil) != (e2 == nil) {
+			out.Violation("C17/variant-different-dns-key", vop, fmt.Sprintf("dns.ForLookup(%q)=%q,%v but dns.ForLookup(%q)=%q,%v", dc, kc, e1, dv, kd, e2))
+		}
+		if !dns.Equal(dc, dv) || !dns.Equal(dv, dc) {
+			out.Violation("C17/variant-dns-not-equal", vop, fmt.Sprintf("dns.Equal(%q,%q)=false", dc, dv))
+		}
+		// CleanDomain keeps the local part as written and gives every spelling of the domain one form
+		// (up to the trailing dot, which CleanDomain keeps)
+		cc, e3 := CleanDomain(canon)
+		cv, e4 := CleanDomain(v)
+		if e3 == nil {
+			_, cdc := c17SplitAt(cc)
+			mcv, cdv := c17SplitAt(cv)
+			if e4 != nil || c17TrimDot(cdc) != c17TrimDot(cdv) || mcv != mv {
+				out.Violation("C17/variant-different-cleandomain", vop, fmt.Sprintf("CleanDomain(%q)=%q but CleanDomain(%q)=%q,%v", canon, cc, v, cv, e4))
 			}
 		}
-		d2 = strings.Join(ls, ".")
 	}
-	vs = append(vs, m2+"@"+d2)
-	return vs
+	_ = mc
+	out.Stat("variants.checked")
+	if v != canon {
+		out.Stat("variants.distinct")
+	}
 }
 
 func c17Monitor(out *vh.Out, r *vh.Rng, a c17Addr) {
 	canon := a.mbox + "@" + a.domain
 	op := "C17 laws " + vh.HexRunes(canon)
+	c17CheckValid(out, canon)
+	if !Valid(canon) {
+		out.Note("generated address not accepted by address.Valid: " + canon)
+	}
 	// idempotence
 	k1, err := ForLookup(canon)
 	if err != nil {
-		out.Note("valid address rejected by ForLookup: " + canon)
+		out.Violation("C17/valid-address-no-key", op, fmt.Sprintf("generated valid address %q: ForLookup: %v", canon, err))
 		return
 	}
-	k2, _ := ForLookup(k1)
-	if k1 != k2 {
-		out.Violation("C17/forlookup-not-idempotent", op, fmt.Sprintf("%q -> %q -> %q", canon, k1, k2))
+	k2, err2 := ForLookup(k1)
+	if k1 != k2 || err2 != nil {
+		out.Violation("C17/forlookup-not-idempotent", op, fmt.Sprintf("%q -> %q -> %q %v", canon, k1, k2, err2))
 	}
 	c1, err := CleanDomain(canon)
-	if err == nil {
+	if err != nil {
+		out.Violation("C17/valid-address-cleandomain-fails", op, fmt.Sprintf("generated valid address %q: CleanDomain: %v", canon, err))
+	} else {
 		c2, _ := CleanDomain(c1)
 		if c1 != c2 {
 			out.Violation("C17/cleandomain-not-idempotent", op, fmt.Sprintf("%q -> %q -> %q", canon, c1, c2))
 		}
 	}
+	dk1, err := dns.ForLookup(a.domain)
+	if err != nil {
+		out.Violation("C17/valid-address-no-dns-key", op, fmt.Sprintf("generated valid domain %q: dns.ForLookup: %v", a.domain, err))
+	} else if dk2, _ := dns.ForLookup(dk1); dk1 != dk2 {
+		out.Violation("C17/dns-forlookup-not-idempotent", op, fmt.Sprintf("%q -> %q -> %q", a.domain, dk1, dk2))
+	}
 	// variants
-	vs := c17Variants(r, a)
+	vs := c17Variants(out, r, a)
 	for _, v := range vs[1:] {
-		kv, _ := ForLookup(v)
-		vop := "C17 variants " + vh.HexRunes(canon) + " " + vh.HexRunes(v)
-		if kv != k1 {
-			sig := "C17/variant-different-key"
-			if strings.Contains(v, "XN--") {
-				sig = "C17/uppercase-ace-prefix-different-key"
-			}
-			out.Violation(sig, vop, fmt.Sprintf("ForLookup(%q)=%q but ForLookup(%q)=%q", canon, k1, v, kv))
-		}
-		if !Equal(canon, v) || !Equal(v, canon) {
-			sig := "C17/variant-not-equal"
-			if strings.Contains(v, "XN--") {
-				sig = "C17/uppercase-ace-prefix-not-equal"
-			}
-			out.Violation(sig, vop, fmt.Sprintf("Equal(%q,%q)=false", canon, v))
-		}
-		out.Stat("variants.checked")
+		c17CheckPair(out, canon, v)
+		c17CheckValid(out, v)
+	}
+	// variants are pairwise equal too (transitivity on concrete triples)
+	if len(vs) >= 3 && !Equal(vs[1], vs[2]) {
+		out.Violation("C17/variant-not-equal", "C17 variants "+vh.HexRunes(vs[1])+" "+vh.HexRunes(vs[2]), fmt.Sprintf("Equal(%q,%q)=false, both spellings of %q", vs[1], vs[2], canon))
 	}
 	// split / join
 	m, d, err := Split(canon)
 	if err != nil || m+"@"+d != canon {
 		out.Violation("C17/split-join", op, fmt.Sprintf("Split(%q) = %q %q %v", canon, m, d, err))
 	}
-	// ASCII <-> Unicode
+	// ASCII <-> Unicode: the generated address is in U-label form, so ToUnicode leaves it alone; with an
+	// ASCII local part ToASCII succeeds and the two conversions are inverse to one another
+	if us, err := ToUnicode(canon); err != nil || us != canon {
+		out.Violation("C17/tounicode-changes-u-form", op, fmt.Sprintf("ToUnicode(%q)=%q %v", canon, us, err))
+	}
 	if IsASCII(a.mbox) {
 		as, err := ToASCII(canon)
-		if err == nil {
+		if err != nil {
+			out.Violation("C17/valid-address-toascii-fails", op, fmt.Sprintf("ToASCII(%q): %v", canon, err))
+		} else {
 			us, err2 := ToUnicode(as)
 			if err2 != nil || us != canon {
 				out.Violation("C17/idna-roundtrip", op, fmt.Sprintf("ToUnicode(ToASCII(%q)=%q)=%q %v", canon, as, us, err2))
 			}
 			if !IsASCII(as) {
 				out.Violation("C17/toascii-not-ascii", op, fmt.Sprintf("ToASCII(%q)=%q", canon, as))
+			}
+			if as2, err3 := ToASCII(us); err2 == nil && (err3 != nil || as2 != as) {
+				out.Violation("C17/idna-roundtrip", op, fmt.Sprintf("ToASCII(ToUnicode(%q)=%q)=%q %v", as, us, as2, err3))
 			}
 		}
 	}
@@ -360,6 +633,16 @@ func c17Strings(out *vh.Out, s, t string) {
 	if Equal(s, t) != Equal(t, s) {
 		out.Violation("C17/equal-not-symmetric", op, "")
 	}
+	ds, _ := dns.ForLookup(s)
+	dt, _ := dns.ForLookup(t)
+	dop := "C17 dnsequal " + vh.HexRunes(s) + " " + vh.HexRunes(t)
+	if dns.Equal(s, t) != (ds == dt) {
+		out.Violation("C17/dns-equal-vs-key", dop, fmt.Sprintf("dns.Equal=%v keys %q %q", dns.Equal(s, t), ds, dt))
+	}
+	if dns.Equal(s, t) != dns.Equal(t, s) {
+		out.Violation("C17/dns-equal-not-symmetric", dop, "")
+	}
+	c17CheckValid(out, s)
 	// IsASCII
 	if utf8.ValidString(s) {
 		all := true
@@ -382,11 +665,15 @@ func c17Strings(out *vh.Out, s, t string) {
 		}
 	}
 	// quote / unquote
+	// (also for raw local parts that themselves look like a quoted string: the quoted form of s, s in
+	// bare quotes -- QuoteMbox takes the raw local part, whatever it looks like)
 	if s != "" && utf8.ValidString(s) {
-		q := QuoteMbox(s)
-		u, err := UnquoteMbox(q)
-		if err != nil || u != s {
-			out.Violation("C17/unquote-quote", "C17 quote "+vh.HexRunes(s), fmt.Sprintf("Unquote(Quote(%q)=%q)=%q %v", s, q, u, err))
+		for _, raw := range []string{s, QuoteMbox(s), "\"" + s + "\"", "\"" + strings.ReplaceAll(s, "\"", "") + "\""} {
+			q := QuoteMbox(raw)
+			u, err := UnquoteMbox(q)
+			if err != nil || u != raw {
+				out.Violation("C17/unquote-quote", "C17 quote "+vh.HexRunes(raw), fmt.Sprintf("Unquote(Quote(%q)=%q)=%q %v", raw, q, u, err))
+			}
 		}
 	}
 }
@@ -428,16 +715,9 @@ func c17Replay(out *vh.Out, op string) {
 			c17Monitor(out, vh.NewRng(seed), c17Addr{canon[:i], canon[i+1:]})
 		}
 	case "variants":
-		canon, v := vh.UnhexRunes(toks[2]), vh.UnhexRunes(toks[3])
-		k1, _ := ForLookup(canon)
-		kv, _ := ForLookup(v)
-		if k1 != kv {
-			sig := "C17/variant-different-key"
-			if strings.Contains(v, "XN--") {
-				sig = "C17/uppercase-ace-prefix-different-key"
-			}
-			out.Violation(sig, op, fmt.Sprintf("ForLookup(%q)=%q but ForLookup(%q)=%q", canon, k1, v, kv))
-		}
+		c17CheckPair(out, vh.UnhexRunes(toks[2]), vh.UnhexRunes(toks[3]))
+	case "validkey":
+		c17CheckValid(out, vh.UnhexRunes(toks[2]))
 	case "crash":
 		c17NoCrash(out, string(vh.UnhexBytes(toks[2])), string(vh.UnhexBytes(toks[3])))
 	default:
@@ -469,7 +749,7 @@ func TestVerifC17(t *testing.T) {
 	}
 	r := vh.NewRng(vh.Seed() + 17)
 	n := vh.N(3000)
-	fns1 := []string{"split", "unquote", "quote", "isascii", "toascii", "tounicode", "forlookup", "cleandomain", "dnsforlookup"}
+	fns1 := []string{"split", "unquote", "quote", "isascii", "toascii", "tounicode", "forlookup", "cleandomain", "dnsforlookup", "valid"}
 	for i := 0; i < n; i++ {
 		var s, t string
 		switch r.Intn(3) {
@@ -477,7 +757,7 @@ func TestVerifC17(t *testing.T) {
 			s, t = c17Random(r, 8), c17Random(r, 8)
 		case 1: // valid address and one of its variants
 			a := c17Valid(r)
-			vs := c17Variants(r, a)
+			vs := c17Variants(out, r, a)
 			s, t = vs[0], vs[len(vs)-1]
 			c17Monitor(out, r, a)
 		default: // mutated valid address
